@@ -342,17 +342,19 @@ def write_xml_folder(root, kind, pos, target):
     entries = [(n, k, "%s%s" % (k, re.sub(r"[^A-Za-z0-9]", "_", n))) for n, k in decoys]
     entries.insert(pos, (target, kind, "%s%s" % (kind, re.sub(r"[^A-Za-z0-9]", "_", target)) + "_t"))
     comps += entries
+    # Doxygen lists groups, directories and pages after the classes: a \\defgroup or a source directory may carry the class's name
+    comps += [(target, "group", "group__" + re.sub(r"[^A-Za-z0-9]", "_", target)), (target.split("::")[-1], "dir", "dir_0123")]
     idx = ET.Element("doxygenindex")
     for n, k, refid in comps:
         c = ET.SubElement(idx, "compound", {"refid": refid, "kind": k})
         ET.SubElement(c, "name").text = n
-        if k not in ("namespace", "file"):
+        if k not in ("namespace", "file", "group", "dir"):
             m = ET.SubElement(c, "member", {"refid": refid + "_1a", "kind": "function"})
             ET.SubElement(m, "name").text = "set"
     with open(os.path.join(root, "index.xml"), "w") as f:
         f.write(ET.tostring(idx, encoding="unicode"))
     for n, k, refid in comps:
-        members = [] if k in ("namespace", "file") else [mk_member("set", [("key", False)], "set of %s" % n, pdocs=True),
+        members = [] if k in ("namespace", "file", "group", "dir") else [mk_member("set", [("key", False)], "set of %s" % n, pdocs=True),
                                                             mk_member("get", [], "get of %s" % n)]
         with open(os.path.join(root, refid + ".xml"), "w") as f:
             f.write(_compound_file(n, refid, k, members))
